@@ -159,3 +159,50 @@ Theorem C02_memo_transparent : forall (K V : Type) (eqb : K -> K -> bool) (f : K
   fst (memo_call eqb f maxsize c k) = f k /\ cache_ok f (snd (memo_call eqb f maxsize c k)).
 Proof. exact (@memo_call_correct). Qed.
 Print Assumptions C02_memo_transparent.
+
+(* Router.handle_request, traversal part (attrs['root'] = root; attrs.update(tdict)):
+   what a ContextFound subscriber or a view reads off the request is exactly the
+   traverser's dictionary; a failing traversal fails the request the same way *)
+Theorem C02_router_copies_dict : forall root q,
+  router_traversal root q = rbind (traverser_call root q) (fun d => Ok (dict_attrs d)) /\
+  forall d, traverser_call root q = Ok d ->
+    exists a, router_traversal root q = Ok a /\
+      attrs_get k_context a = Some (ARes (t_context d)) /\
+      attrs_get k_view_name a = Some (AStr (t_view_name d)) /\
+      attrs_get k_subpath a = Some (ASeq (t_subpath d)) /\
+      attrs_get k_traversed a = Some (ASeq (t_traversed d)) /\
+      attrs_get k_virtual_root a = Some (ARes (t_virtual_root d)) /\
+      attrs_get k_virtual_root_path a = Some (ASeq (t_virtual_root_path d)) /\
+      attrs_get k_root a = Some (ARes (fst root)).
+Proof. exact router_copies_dict. Qed.
+Print Assumptions C02_router_copies_dict.
+
+Theorem C02_facts_router_ok :
+  ret_keys = [k_context; k_view_name; k_subpath; k_traversed; k_virtual_root; k_virtual_root_path; k_root] /\
+  router_root_key = k_root /\ router_updates_attrs = true.
+Proof. exact facts_router_ok. Qed.
+Print Assumptions C02_facts_router_ok.
+
+(* a memo table whose miss runs a computation that itself uses other caches
+   (state-passing), with an optional bound and uncached exceptions *)
+Theorem C02_memo_st_transparent :
+  forall (K V S : Type) (eqb : K -> K -> bool) (f : K -> V) (bound : option nat) (cacheable : V -> bool)
+         (g : S -> K -> V * S) (InvS : S -> Prop),
+  (forall a b, eqb a b = true -> a = b) ->
+  (forall s k, InvS s -> fst (g s k) = f k /\ InvS (snd (g s k))) ->
+  forall c s k, cache_ok f c -> InvS s ->
+  fst (memo_call_st eqb bound cacheable g c s k) = f k /\
+  cache_ok f (fst (snd (memo_call_st eqb bound cacheable g c s k))) /\
+  InvS (snd (snd (memo_call_st eqb bound cacheable g c s k))).
+Proof. exact (@memo_call_st_correct). Qed.
+Print Assumptions C02_memo_st_transparent.
+
+(* trav_history_free for every memoised entry point: split_path_info (lru),
+   traversal_path_info (lru over the former), _join_path_tuple (lru over the
+   segment dictionary), _segment_cache keyed by (segment, safe) -- composed through
+   the traverser, the Router, traverse(), find_resource(), traversal_path(_info)
+   and quote_path_segment, for any history and any valid initial cache state *)
+Theorem C02_ops_history_free : forall os C,
+  caches_ok C -> run_ops_st C os = map pure_op os.
+Proof. exact ops_history_free. Qed.
+Print Assumptions C02_ops_history_free.
